@@ -25,6 +25,7 @@ ANCHORS = [("dateparser.utils", "set_correct_day_from_settings"), ("dateparser.u
            ("dateparser.date", "parse_with_formats")]
 PREFS = ["first", "last", "current"]
 FULL_FMTS = ["%d %B %Y", "%Y-%m-%d", "%d/%m/%Y %H:%M", "%A, %d %B %Y"]
+DAY_NO_MONTH_FMTS = ["%d %Y", "%Y %d", "%d %y %H:%M"]
 # formats offered beside the matching one (kept only when Python's own strptime rejects the string under them): an earlier or
 # later non-matching format of different completeness must not influence the completion or the period
 DECOYS = ["%B %Y", "%Y", "%m/%Y", "%d.%m.%Y", "%H:%M", "%b %y", "%d %B", "%Y/%m/%d %H:%M:%S", "%B", "%d-%m-%Y", "%A", "%j %Y"]
@@ -78,7 +79,15 @@ def expected(c):
         dt = datetime(y, m, d, hh, mi)
         s = (fmt.replace("%d", "%02d" % d).replace("%B", MN[m - 1]).replace("%Y", "%04d" % y).replace("%m", "%02d" % m)
              .replace("%H", "10").replace("%M", "15").replace("%A", WN[dt.weekday()]))
-        return s, dt, "day", fmt
+        return s, dt, "time" if (rtp and "%H" in fmt) else "day", fmt
+    if fmt in DAY_NO_MONTH_FMTS:
+        # the day is stated, the month is not: month 1 | 12, day as written, period by the finest part present = day
+        em = {"first": 1, "last": 12}[pm]
+        hh, mi = (10, 15) if "%H" in fmt else (0, 0)
+        yy = y if "%Y" in fmt else (2000 if y % 100 < 69 else 1900) + y % 100
+        s = (fmt.replace("%d", "%02d" % d).replace("%Y", "%04d" % y).replace("%y", "%02d" % (y % 100))
+             .replace("%H", "10").replace("%M", "15"))
+        return s, datetime(yy, em, d, hh, mi), "time" if (rtp and "%H" in fmt) else "day", fmt
     if fmt == "%Y":
         s = "%04d" % y
         em = {"first": 1, "last": 12}[pm]
@@ -119,7 +128,8 @@ def check_case(ctx, c):
         got = (e, None)
     ctx.ran()
     path = PathTap.accepted()
-    feats = {"kind": c["kind"], "pd": c["pd"], "pm": c["pm"], "y_lt_1000": c["y"] < 1000, "path": path}
+    feats = {"kind": c["kind"], "pd": c["pd"], "pm": c["pm"], "y_lt_1000": c["y"] < 1000, "path": path, "fmt": fmt,
+             "rtp": bool(c["rtp"])}
     cj = dict(c, string=s)
     if got[0] != exp:
         ctx.violation(cj, got[0], exp, "completion-date", feats)
@@ -155,10 +165,12 @@ def gen_random(rnd):
     if kind in ("full", "full_iso", "full_time"):
         c["d"] = rnd.choice([calendar.monthrange(y, m)[1], rnd.randrange(1, calendar.monthrange(y, m)[1] + 1)])
     if kind == "fmt":
-        c["fmt"] = rnd.choice(["%B %Y", "%m/%Y", "%Y", "%b %y"] + FULL_FMTS)
+        c["fmt"] = rnd.choice(["%B %Y", "%m/%Y", "%Y", "%b %y"] + FULL_FMTS + DAY_NO_MONTH_FMTS)
         c["pd"], c["pm"] = rnd.choice(["first", "last"]), rnd.choice(["first", "last"])
-        if (c["fmt"] == "%Y" or c["fmt"] in FULL_FMTS) and y < 1000:
+        if (c["fmt"] == "%Y" or c["fmt"] in FULL_FMTS or c["fmt"] in DAY_NO_MONTH_FMTS) and y < 1000:
             c["y"] = y = y + 1000
+        if c["fmt"] in DAY_NO_MONTH_FMTS:
+            c["d"] = rnd.randrange(1, 32)       # January and December both have 31 days
         if c["fmt"] in FULL_FMTS:
             c["d"] = rnd.choice([calendar.monthrange(y, m)[1], rnd.randrange(1, calendar.monthrange(y, m)[1] + 1)])
         if rnd.random() < 0.6:
